@@ -176,9 +176,9 @@ theorem top_sum (s : State) (n : Int) :
     (∀ qf ∈ top s n, qf.count = countOf qf.query s.entries ∧ 0 < qf.count ∧ ∃ e ∈ s.entries, e.query = qf.query) ∧
     ((top s n).map (·.query)).Nodup ∧
     (top s n).Pairwise (fun a b => b.count ≤ a.count) ∧
-    (top s n).length = min (effLimit n) (distinctQueries s.entries).length ∧
+    (top s n).length = min (effLimitTop n) (distinctQueries s.entries).length ∧
     (∀ e ∈ s.entries, e.query ∉ (top s n).map (·.query) → ∀ qf ∈ top s n, countOf e.query s.entries ≤ qf.count) ∧
-    ((distinctQueries s.entries).length ≤ effLimit n →
+    ((distinctQueries s.entries).length ≤ effLimitTop n →
       ((top s n).map (·.count)).sum = s.entries.length ∧ ∀ e ∈ s.entries, e.query ∈ (top s n).map (·.query)) :=
   topSpec_props (top_topSpec s n)
 
